@@ -205,6 +205,9 @@ pub fn gen_manifest(rng: &mut Rng, dup_outputs: bool) -> AManifest {
                 if rng.chance(1, 8) { vars.push(("hide_success".into(), vec![Tok::Lit("1".into())])); }
                 if rng.chance(1, 8) { vars.push(("restat".into(), vec![Tok::Lit("1".into())])); }
                 if rng.chance(1, 10) { vars.push(("command".into(), gen_val(rng, &refs, false))); } // repeated key: last wins
+                // an attribute that is EXACTLY one reference to a build-block variable (generated manifests:
+                // `description = $DESC`): its value is expanded in file scope, siblings invisible
+                if rng.chance(1, 4) { vars.push(("description".into(), vec![Tok::Var("bvar".into())])); }
                 rules.push(name.clone());
                 AStmt::Rule(name, vars)
             }
@@ -236,6 +239,11 @@ pub fn gen_manifest(rng: &mut Rng, dup_outputs: bool) -> AManifest {
                 if rng.chance(1, 6) { b.vars.push(("command".into(), gen_val(rng, &["bvar".to_string(), "in".to_string(), "x".to_string()], false))); }
                 if rng.chance(1, 8) { b.vars.push(("pool".into(), vec![Tok::Lit("p0".into())])); }
                 if rng.chance(1, 12) { b.vars.push(("x".into(), vec![Tok::Lit("shadow".into())])); }
+                // a build-block value that mentions a name ALSO bound by a sibling in the same block
+                if rng.chance(1, 5) {
+                    b.vars.push(("bvar".into(), vec![Tok::Lit("-".into()), Tok::Var("x".into()), Tok::Var("y".into())]));
+                    b.vars.push((if rng.chance(1, 2) { "x" } else { "y" }.to_string(), vec![Tok::Lit("sib".into())]));
+                }
                 // build-block bindings named like the magic variables ($in/$out always win inside rule bindings),
                 // and build-block values that mention $in/$out (expanded in FILE scope, not with the step's lists)
                 if rng.chance(1, 10) { b.vars.push((rng.pick(&["in", "out", "in_newline", "out_newline"]).to_string(), vec![Tok::Lit("SHADOW".into())])); }
